@@ -249,4 +249,3 @@ func (p *isoPlacement) detach() {
 	}
 	p.saved = nil
 }
-
